@@ -88,6 +88,22 @@ def results_of(res):
     return []
 
 
+def uses_all_names(s):
+    """make sure every indeterminate occurs with a non-zero coefficient somewhere (positional arguments then mean the
+    same under every retain_names setting)"""
+    row = [1] * len(s["names"])
+    size = 1
+    for d in s["shape"]:
+        size *= d
+    if not any(t[0] == row for t in s["terms"]):
+        s["terms"].append([row, [1] * size])
+    else:
+        for t in s["terms"]:
+            if t[0] == row:
+                t[1] = [1] * size
+    return s
+
+
 def shape_nd(rng, lo=1, hi=3):
     return gen.choice(rng, [s for s in gen.SHAPES if lo <= len(s) <= hi])
 
@@ -103,6 +119,14 @@ def entries():
     add("polynomial(dict)", lambda r: [P(r, shape=())], lambda a: numpoly.polynomial(a.todict(), names=a.names), "construct")
     add("aspolynomial(poly)", lambda r: [P(r)], lambda a: numpoly.aspolynomial(a), "construct")
     add("aspolynomial(values, names)", lambda r: [P(r)], lambda a: numpoly.aspolynomial(a.values, names=a.names), "construct")
+    # coefficient lists of mixed dtypes, the widest one sitting on an all-zero column
+    add("from_attributes(mixed dtypes)", lambda r: [int(r.integers(4)), int(r.integers(3))],
+        lambda k, z: numpoly.ndpoly.from_attributes(
+            [[0, 0], [1, 0], [0, 2]],
+            [numpy.array([1, 2], dtype=MIXED[k][0]) * (z != 0), numpy.array([3, 0], dtype=MIXED[k][1]) * (z != 1),
+             numpy.array([0, -1], dtype=MIXED[k][2]) * (z != 2)], ("q0", "q1")), "construct")
+    add("polynomial(dict, mixed)", lambda r: [int(r.integers(3))],
+        lambda z: numpoly.polynomial({(0, 0): 1 * (z != 0), (1, 0): 2.5 * (z != 1) , (0, 2): numpy.float32(3) * (z != 2)}), "construct")
     add("from_attributes", lambda r: [P(r)],
         lambda a: numpoly.ndpoly.from_attributes(a.exponents, a.coefficients, a.names), "construct")
     add("clean_attributes", lambda r: [P(r)], lambda a: numpoly.clean_attributes(a), "construct")
@@ -130,6 +154,15 @@ def entries():
         add(nm, lambda r: pair(r, nterms=int(r.integers(0, 4)), kind="int"), f, "order")
     # calculus / evaluation -----------------------------------------------------------------
     add("derivative", lambda r: [P(r), 0], lambda a, j: numpoly.derivative(a, a.names[j]), "calculus")
+    # several variables in succession: by position, by name, by indeterminate (made under the current options)
+    add("derivative(positions)", lambda r: [uses_all_names(P(r, names=[0, 1], nterms=4)), int(r.integers(2)), int(r.integers(2))],
+        lambda a, i, j: numpoly.derivative(a, i, j), "calculus")
+    add("derivative(names)", lambda r: [P(r, names=gen.choice(r, [[0, 1], [0, 2], [1, 2, 10]]), nterms=4), int(r.integers(2)), int(r.integers(2))],
+        lambda a, i, j: numpoly.derivative(a, a.names[i], a.names[j]), "calculus")
+    add("derivative(indeterminates)", lambda r: [P(r, names=[0, 1, 2], nterms=4), int(r.integers(3)), int(r.integers(3))],
+        lambda a, i, j: numpoly.derivative(a, numpoly.variable(3)[i], numpoly.variable(3)[j]), "calculus")
+    add("derivative(symbols)", lambda r: [P(r, names=[0, 1, 2], nterms=4), int(r.integers(3))],
+        lambda a, i: numpoly.derivative(a, numpoly.symbols("q0 q1 q2")[i]), "calculus")
     add("gradient", lambda r: [P(r, shape=gen.gen_shape(r, 2))], numpoly.gradient, "calculus")
     add("hessian", lambda r: [P(r, shape=gen.gen_shape(r, 1), names=gen.gen_names(r, 1, 2), nterms=3)], numpoly.hessian, "calculus")
     add("call(full)", lambda r: [P(r, maxexp=2), int(r.integers(-2, 3))],
@@ -199,6 +232,7 @@ def entries():
     # division (default retain options only) --------------------------------------------------------
     add("poly_divmod(const)", lambda r: [P(r, nterms=2), gen.choice(r, [1, 2, -1, 4])], lambda a, c: numpoly.poly_divmod(a, c), "division", division=True)
     add("poly_divmod(univariate)", lambda r: uni_pair(r), lambda a, b: numpoly.poly_divmod(a, b), "division", division=True)
+    add("poly_divmod(multivariate)", lambda r: multi_pair(r), lambda a, b: numpoly.poly_divmod(a, b), "division", division=True)
     add("floor_divide(const)", lambda r: [P(r, kind="int"), gen.choice(r, [1, 2, 3])], lambda a, c: numpoly.floor_divide(numpoly.polynomial(numpoly.polynomial(a)(**{n: 1 for n in a.names})), c), "division", division=True)
     return E
 
@@ -213,6 +247,27 @@ def same_pair(rng, shape=None, **kw):
     na, nb, _ = gen.gen_name_pair(rng)
     kind = kw.pop("kind", None) or gen.choice(rng, ["int", "float"], p=[.75, .25])
     return [P(rng, names=na, shape=shape, kind=kind, **kw), P(rng, names=nb, shape=shape, kind=kind, **kw)]
+
+
+MIXED = [("int64", "float64", "int32"), ("uint8", "int8", "float32"), ("float32", "int64", "complex128"), ("int16", "int16", "float64")]
+
+
+def multi_pair(rng):
+    """two-variable dividend / divisor whose leading term depends on which indeterminate takes precedence; the
+    divisor's terms have coefficients +-1 so every quotient step is exact"""
+    def mono(e0, e1, c):
+        return [[e0, e1], [c]]
+    dividend = {"names": [0, 1], "shape": [], "dtype": "int64", "kind": "int", "as": "poly",
+                "terms": [mono(int(rng.integers(0, 3)), int(rng.integers(0, 3)), int(rng.integers(1, 4))) for _ in range(3)]}
+    seen, terms = set(), []
+    for t in dividend["terms"]:
+        if tuple(t[0]) not in seen:
+            seen.add(tuple(t[0])); terms.append(t)
+    dividend["terms"] = terms
+    a, b = int(rng.integers(1, 3)), int(rng.integers(1, 3))
+    divisor = {"names": [0, 1], "shape": [], "dtype": "int64", "kind": "int", "as": "poly",
+               "terms": [mono(a, 0, gen.choice(rng, [1, -1])), mono(0, b, gen.choice(rng, [1, -1]))] + ([mono(0, 0, int(rng.integers(-2, 3)))] if rng.random() < .5 else [])}
+    return [dividend, divisor]
 
 
 def uni_pair(rng):
